@@ -87,4 +87,11 @@ CHECKS = {
         technique="runtime monitoring: byte/AST boundary oracle on rewritten files over hostile-layout workloads",
         ref="DESIGN.md section 4 C03",
     ),
+    "C20": dict(
+        level="exploration",
+        text="Generated projects with [tool.black] options (line length 20-120, magic trailing comma, string normalisation, preview; also none) and test files made clean by the harness with exactly that mode, or deliberately unclean, are rewritten by the real code (changes that straddle the line limit, inserted elements, multi-line strings). The harness rebuilds black.Mode independently and checks black(new)==new for files that were clean; a recorder around black.format_str tells black's own instability from a missing or wrongly configured final whole-file format and checks that every fragment was formatted with the project's mode; unclean files go through C03's byte oracle.",
+        note="cwd = project root, as in a pytest session. black 26.5.1 as installed.",
+        technique="runtime monitoring: formatter fixed-point oracle with independently built mode + recorder on black.format_str",
+        ref="DESIGN.md section 4 C20",
+    ),
 }
